@@ -423,6 +423,17 @@ def validate_all(trace_path, name, max_viol=5, module="ConcTrace", boundary='"re
     return len(lines), rejected, states
 
 
+def conc_passes(tier):
+    """(build, mode) passes of the scheduler engines.  The thorough tier repeats the exhaustive and the free-running
+    pass on unimock built without std (critical-section + spin-lock: the other MutexIsh, an extra per-instance
+    `panicked` lock); threads call through clones, so Conc.tla / Chain.tla apply unchanged."""
+    passes = [("std", m) for m in ("dfs", "random", "free")]
+    if tier == "thorough":
+        vf.build_harness(nostd=True)
+        passes += [("no_std+spin-lock", m) for m in ("dfs", "free")]
+    return passes
+
+
 def run_conc(pid, tier, t0, rule, assumptions, plan_key=None):
     import subprocess
     plan = CONC_PROGS[plan_key or pid][tier]
@@ -445,29 +456,30 @@ def run_conc(pid, tier, t0, rule, assumptions, plan_key=None):
     cov["sensitivity"] = {"CounterImpl=load_store": rs["violated"]}
     # 2. the code: executions under the controlled scheduler / free running, validated against ConcTrace.tla
     all_rej = []
-    for mode in ("dfs", "random", "free"):
+    for (build, mode) in conc_passes(tier):
+        vh = vf.VH if build == "std" else vf.VH_NOSTD
         progs = plan.get(mode)
         if not progs:
             continue
-        d = os.path.join(vf.WORK, "conc_%s_%s" % (pid.lower(), mode))
+        d = os.path.join(vf.WORK, "conc_%s_%s%s" % (pid.lower(), mode, "" if build == "std" else "_nostd"))
         os.makedirs(d, exist_ok=True)
         spec = {"mode": mode, "programs": progs, "max_schedules": 60000 if tier == "thorough" else 6000,
                 "runs": plan.get("free_runs" if mode == "free" else "runs", 200), "seed": vf.seed()}
         json.dump(spec, open(os.path.join(d, "spec.json"), "w"))
         tr = os.path.join(d, "trace.ndjson")
-        p = subprocess.run([vf.VH, "conc", os.path.join(d, "spec.json"), tr, os.path.join(d, "summary.json")], cwd=vf.VERIF, stderr=subprocess.DEVNULL, timeout=3000)
+        p = subprocess.run([vh, "conc", os.path.join(d, "spec.json"), tr, os.path.join(d, "summary.json")], cwd=vf.VERIF, stderr=subprocess.DEVNULL, timeout=3000)
         if p.returncode != 0:
             raise ToolError("scheduler harness failed in mode %s (exit %s): are the yield hooks present?" % (mode, p.returncode))
         summ = json.load(open(os.path.join(d, "summary.json")))
-        n_events, rej, st = validate_all(tr, "ctrace_%s_%s" % (pid.lower(), mode))
+        n_events, rej, st = validate_all(tr, "ctrace_%s_%s%s" % (pid.lower(), mode, "" if build == "std" else "_nostd"))
         cov["states"] += st; cov["transitions"] += st
         cov["traces_validated_against_impl"] += summ["executions"]
         cov["evaluations"] += summ["executions"]
         cov["distinct_nontrivial"] += summ["executions"] if mode == "dfs" else 0
-        cov["instances"].append({"name": "scheduler/" + mode, "executions": summ["executions"], "events": n_events, "yield_points_hit": summ["yield_points_hit"],
+        cov["instances"].append({"name": "scheduler/" + mode, "unimock_build": build, "executions": summ["executions"], "events": n_events, "yield_points_hit": summ["yield_points_hit"],
                                  "programs": summ["programs"], "rejected": len(rej), "trace_spec_states": st})
         for r in rej:
-            r["mode"] = mode
+            r["mode"] = mode + ("" if build == "std" else " (no_std + spin-lock build)")
         all_rej += rej
         if not cov["samples"]:
             cov["samples"].append([json.loads(x) for x in open(tr).read().splitlines()[:12]])
@@ -506,17 +518,18 @@ def run_chain_conc(pid, tier, t0):
         raise ToolError("sensitivity run (find-then-fill push) violates nothing: the chain invariants are vacuous")
     cov["sensitivity"] = {"PushImpl=find_then_fill": rs["violated"]}
     divs = []
-    for mode in ("dfs", "random", "free"):
+    for (build, mode) in conc_passes(tier):
+        vh = vf.VH if build == "std" else vf.VH_NOSTD
         progs = plan.get(mode)
         if not progs:
             continue
-        d = os.path.join(vf.WORK, "chain_%s" % mode)
+        d = os.path.join(vf.WORK, "chain_%s%s" % (mode, "" if build == "std" else "_nostd"))
         os.makedirs(d, exist_ok=True)
         spec = {"kind": "chain", "mode": mode, "programs": progs, "max_schedules": 60000 if tier == "thorough" else 8000,
                 "runs": plan.get("free_runs" if mode == "free" else "runs", 200), "seed": vf.seed()}
         json.dump(spec, open(os.path.join(d, "spec.json"), "w"))
         tr = os.path.join(d, "trace.ndjson")
-        p = subprocess.run([vf.VH, "conc", os.path.join(d, "spec.json"), tr, os.path.join(d, "summary.json")], cwd=vf.VERIF, stderr=subprocess.DEVNULL, timeout=3000)
+        p = subprocess.run([vh, "conc", os.path.join(d, "spec.json"), tr, os.path.join(d, "summary.json")], cwd=vf.VERIF, stderr=subprocess.DEVNULL, timeout=3000)
         if p.returncode != 0:
             # a panic inside make_ref under the mutant kills a worker thread; the harness reports exit 101
             if p.returncode < 0 or p.returncode == 101:
@@ -525,11 +538,11 @@ def run_chain_conc(pid, tier, t0):
                 continue
             raise ToolError("scheduler harness failed in chain mode %s (exit %s)" % (mode, p.returncode))
         summ = json.load(open(os.path.join(d, "summary.json")))
-        n_events, rej, st = validate_all(tr, "chaintrace_%s" % mode, module="ChainTrace")
+        n_events, rej, st = validate_all(tr, "chaintrace_%s%s" % (mode, "" if build == "std" else "_nostd"), module="ChainTrace")
         cov["states"] += st; cov["transitions"] += st
         cov["traces_validated_against_impl"] += summ["executions"]; cov["evaluations"] += summ["executions"]
         cov["distinct_nontrivial"] += summ["executions"] if mode == "dfs" else 0
-        cov["instances"].append({"name": "scheduler/" + mode, "executions": summ["executions"], "events": n_events, "yield_points_hit": summ["yield_points_hit"], "rejected": len(rej)})
+        cov["instances"].append({"name": "scheduler/" + mode, "unimock_build": build, "executions": summ["executions"], "events": n_events, "yield_points_hit": summ["yield_points_hit"], "rejected": len(rej)})
         for r_ in rej:
             divs.append({"what": "concurrent make_ref execution not explainable by Chain.tla at event %s" % json.dumps(r_["unmatched_event"]), "step": r_["position_in_execution"],
                          "expected": "every reference designates its own value; lent values destroyed once, after the instance", "observed": r_["unmatched_event"],
